@@ -104,10 +104,12 @@ pub struct AsyncSender<T: Send> {
 pub struct AsyncReceiver<T: Send> {
   shared: Arc<MpmcShared<T>>,
   closed: AtomicBool,
-  /// Inline state flag for the `Stream` impl. A raw pointer to this field is stored
-  /// in `waiting_async_receivers` while the stream is parked. Eagerly unlinked on
-  /// drop / `to_sync` before the struct is freed.
-  pub(super) state: AtomicU8,
+  /// State flag for the `Stream` impl. A raw pointer to it is stored in
+  /// `waiting_async_receivers` while the stream is parked, so it lives in its own
+  /// heap cell: the handle is `Unpin` and may be moved (or converted by value)
+  /// between polls, which must not move the flag. Eagerly unlinked on drop /
+  /// `to_sync` before the cell is freed.
+  pub(super) state: Box<AtomicU8>,
   pub(super) is_registered: bool,
 }
 
@@ -173,7 +175,7 @@ pub fn bounded_async<T: Send>(capacity: usize) -> (AsyncSender<T>, AsyncReceiver
     AsyncReceiver {
       shared,
       closed: AtomicBool::new(false),
-      state: AtomicU8::new(STATE_WAITING),
+      state: Box::new(AtomicU8::new(STATE_WAITING)),
       is_registered: false,
     },
   )
@@ -226,7 +228,7 @@ impl<T: Send> Clone for AsyncReceiver<T> {
     AsyncReceiver {
       shared: Arc::clone(&self.shared),
       closed: AtomicBool::new(false),
-      state: AtomicU8::new(STATE_WAITING),
+      state: Box::new(AtomicU8::new(STATE_WAITING)),
       is_registered: false,
     }
   }
@@ -645,7 +647,7 @@ impl<T: Send> Receiver<T> {
     AsyncReceiver {
       shared,
       closed: AtomicBool::new(closed),
-      state: AtomicU8::new(STATE_WAITING),
+      state: Box::new(AtomicU8::new(STATE_WAITING)),
       is_registered: false,
     }
   }
@@ -1039,7 +1041,7 @@ impl<T: Send> AsyncReceiver<T> {
   pub fn to_sync(self) -> Receiver<T> {
     let closed = self.closed.load(Ordering::Relaxed);
     if self.is_registered {
-      let state_ptr = &self.state as *const AtomicU8;
+      let state_ptr = &*self.state as *const AtomicU8;
       if self
         .state
         .compare_exchange(
@@ -1058,7 +1060,10 @@ impl<T: Send> AsyncReceiver<T> {
       }
     }
     let shared = unsafe { std::ptr::read(&self.shared) };
-    mem::forget(self); // AtomicU8 has no destructor; safe to forget.
+    // The waiter was unlinked above, so the state cell can be released.
+    let state = unsafe { std::ptr::read(&self.state) };
+    mem::forget(self);
+    drop(state);
     Receiver {
       shared,
       closed: AtomicBool::new(closed),
@@ -1091,7 +1096,7 @@ impl<T: Send> Drop for AsyncReceiver<T> {
   fn drop(&mut self) {
     let _ = self.close();
     if self.is_registered {
-      let state_ptr = &self.state as *const AtomicU8;
+      let state_ptr = &*self.state as *const AtomicU8;
       if self
         .state
         .compare_exchange(
